@@ -115,11 +115,13 @@ example : (run exT exInp 0 20).1 ≠ Result.panic :=
 
 /-! ### halting
 
-`LRX.coreRankOk g t rc` (Model/LRXSafe.lean, decidable, evaluated by the driver on the real tables
-of every sampled grammar together with `certOk`): `rc` assigns a rank to every (terminal, state)
-such that for every reduce action `(s, a) ↦ A → α` and every state `p'` from which `α` leads to `s`,
-`gotoState p' A` is a state `q` with `rank a q + weight + 1 ≤ rank a s + weight · |α|`, a shift of
-EOI decreases the rank likewise, and ranks are at most `4 · nStates + 11`. -/
+`LRX.coreRankOk g t cert rc` (Model/LRXSafe.lean, decidable, evaluated by the driver on the real
+tables of every sampled grammar together with `certOk`): `rc` assigns a rank to every (input,
+terminal, state) such that — relative to each input `i`, for the states `s` in the reachable set of
+the soundness certificate other than the final state of `i` — for every reduce action
+`(s, a) ↦ A → α` and every reachable state `p'` from which `α` leads to `s`, `gotoState p' A` is a
+state `q` with `rank i a q + weight + 1 ≤ rank i a s + weight · |α|`, a shift of EOI decreases the
+rank likewise, and ranks are at most `4 · nStates + 11`. -/
 
 /-- Halting: for certified tables with a rank certificate the loop needs at most
 `(|w| + 1) · (4 · nStates + 12 + weight)` iterations on a token string `w` — with that much fuel the
@@ -128,13 +130,13 @@ on sentences and on non-sentences alike. (The potential `W · (tokens left) + we
 height) + rank (next token) (top state)` decreases with every iteration.) -/
 theorem C01_lr_halts (g : Grammar) (t : Tables) (cert : Cert) (rc : LRX.XCert) (inp : Input)
     (i fuel : Nat)
-    (hc : certOk g t cert = true) (hr : LRX.coreRankOk g t rc = true)
+    (hc : certOk g t cert = true) (hr : LRX.coreRankOk g t cert rc = true)
     (htok : ∀ tk ∈ inp.toks.toList, 0 < tk.sym ∧ tk.sym < (t.nTerms : Int))
     (hi : i < g.inputs.size)
     (hfuel : (inp.toks.size + 1) * (4 * t.nStates + 12 + rc.weight) ≤ fuel) :
     (run t inp i fuel).1 ≠ Result.fuel := by
   have hcf := certFacts hc
-  have hrf : LRX.RankFacts g (coreX t) rc := LRX.rankFacts hr
+  have hrf : LRX.RankFacts g (coreX t) cert rc := LRX.rankFacts hr
   unfold run
   cases hfin : t.finalStates[i]? with
   | none => exact fun h => nomatch h
@@ -142,14 +144,16 @@ theorem C01_lr_halts (g : Grammar) (t : Tables) (cert : Cert) (rc : LRX.XCert) (
     simp only
     have h0 := psi_init hcf hrf htok hi
     unfold rankW at h0
-    exact runLoop_halts hcf hrf htok hi fin fuel _ (inv_init g t i inp) (by omega)
+    have hfi : fin = LRX.finOf (coreX t) i := by
+      unfold LRX.finOf coreX; simp only; rw [hfin]; rfl
+    exact runLoop_halts hcf hrf htok hi fin hfi fuel _ (inv_init g t i inp) (by omega)
 
 private def exRC : LRX.XCert :=
-  { weight := 1, rank := #[#[0, 0, 0, 1, 2, 0], #[0, 0, 0, 0, 0, 0], #[0, 0, 0, 0, 0, 0], #[0, 0, 0, 0, 0, 0], #[0, 0, 0, 0, 0, 0]] }
+  { weight := 1, rank := #[#[#[0, 0, 0, 1, 2, 0], #[0, 0, 0, 0, 0, 0], #[0, 0, 0, 0, 0, 0], #[0, 0, 0, 0, 0, 0], #[0, 0, 0, 0, 0, 0]]] }
 
 /-- non-vacuity: the rank certificate of the tables above checks; the bound for the three-token
 input is 4 · 37 = 148 iterations -/
-example : LRX.coreRankOk exG exT exRC = true ∧
+example : LRX.coreRankOk exG exT exCert exRC = true ∧
     (exInp.toks.size + 1) * (4 * exT.nStates + 12 + exRC.weight) = 148 := by decide +kernel
 
 example : (run exT exInp 0 148).1 ≠ Result.fuel :=
